@@ -27,6 +27,7 @@ Definition dec_op (v : val) : option op :=
   | VL [VZ 3; VZ t] => if (0 <=? t) && (t <=? 1000000) then Some (OSetSS t) else None
   | VL [VZ 4; VZ id; VZ e] => if (0 <=? e) && (e <=? 10^11) then Some (OElapsed id e) else None
   | VL [VZ 5; VZ id] => Some (ORestart id)
+  | VL [VZ 6; VZ id; VZ n] => Some (OConn id n)
   | _ => None
   end.
 Definition dec_in (v : val) : option (list (Z * Z) * list op) :=
